@@ -50,6 +50,15 @@ bool check_level_sizes(const Index &idx, size_t n, size_t eps, size_t epsrec, co
             return false;
         }
         if (c > 1) st.inc("reach.chunked_level_" + std::string(l == 0 ? "bottom" : "upper"));
+        {   // reach probes: the appended closing segment, and levels that exactly fill the routing window
+            auto &sg = idx.segs();
+            bool appended = sz >= 3 && sg[offs[l + 1] - 2].slope == 0 && sg[offs[l + 1] - 2].intercept == sg[offs[l + 1] - 1].intercept;
+            if (appended) st.inc("reach.closing_segment_appended");
+            if (epsrec > 0 && l + 2 < offs.size() && segs - (appended ? 1 : 0) == 2 * epsrec + 3) {
+                st.inc(appended ? "reach.level_fills_window_with_closing_segment" : "reach.level_fills_window");
+                if (appended && std::getenv("VERIF_TRACE_PROBE")) std::fprintf(stderr, "PROBE level %zu of %zu n=%zu\n", l, offs.size() - 1, n);
+            }
+        }
         below = segs;
     }
     if (epsrec > 0) {
@@ -77,9 +86,12 @@ struct PgmClass {
         p.set("cfg", ce.name);
         bool large;
         size_t n = draw_n(cfg, E, g, large, g.prop == "C07" ? 25 : 15);
+        // Epsilon 1 and 64-bit keys: sometimes force so many bottom segments that the level above is chunked too
+        bool short_segments = large && !g.tsan && E == 1 && R > 0 && sizeof(K) == 8 && std::is_integral_v<K> && cfg.chance(400);
+        if (short_segments) n = (size_t) cfg.range(118000, 125000);
         draw_env(p, env, large, g.tsan);
         sim::Env e = env_from_plan(p);
-        std::string sig = gen_keys_into<K>(p, n, E, chunks_for(e, n), cfg, work);
+        std::string sig = gen_keys_into<K>(p, n, E, chunks_for(e, n), cfg, work, short_segments);
         p.set("motifs", sig);
         p.set("qseed", work.next() >> 1);
         p.set("qmax", large ? 1500 : 2000);
